@@ -1,6 +1,9 @@
 package router
 
-import "github.com/gammazero/nexus/v3/wamp"
+import (
+	"github.com/gammazero/nexus/v3/transport"
+	"github.com/gammazero/nexus/v3/wamp"
+)
 
 // C07: a client that stops reading loses messages beyond its queue, and
 // nobody else notices.
@@ -404,4 +407,169 @@ func Harness_C07_DealerMetaHandoff() {
 	vAssert("no-worker-stuck-sending", vBlockedSends() == 0)
 	vBystanderServed(r, a)
 	vCover("dealer-meta-handoff-done")
+}
+
+// The stalled session is the one making the requests: the replies to its own
+// requests (PUBLISHED, SUBSCRIBED, REGISTERED, ERROR, RESULT) beyond its queue
+// are lost, its handler never waits for it, and when it then goes away its
+// departure is processed like anybody's.
+func Harness_C07_StalledRequester() {
+	q := 1 + vChoice("queue", 2)
+	r := vNewRouter(&Config{RealmConfigs: []*RealmConfig{{URI: "realm1", AnonymousAuth: true}}})
+	a := vAttach(r, "realm1", nil, 64)
+	s := vAttach(r, "realm1", nil, q)
+	vAssert("attached", a != nil && s != nil)
+	if a == nil || s == nil {
+		return
+	}
+	// s never reads. Its first request registers a procedure (REGISTERED takes a queue slot)
+	s.send(&wamp.Register{Request: 1, Procedure: "s.proc"})
+	n := q + vChoice("more-requests-than-the-queue-holds", 2)
+	metaCalled := 0 // the meta session serves these one after the other
+	for k := 0; k < n; k++ {
+		req := wamp.ID(10 + k)
+		switch vChoice("request", 5) {
+		case 0:
+			s.send(&wamp.Publish{Request: req, Topic: "t", Options: wamp.Dict{"acknowledge": true}})
+		case 1:
+			s.send(&wamp.Subscribe{Request: req, Topic: "t"})
+		case 2:
+			s.send(&wamp.Call{Request: req, Procedure: "no.such.proc"})
+		case 3:
+			s.send(&wamp.Call{Request: req, Procedure: wamp.MetaProcSessionCount})
+			metaCalled++
+		case 4:
+			s.send(&wamp.Unsubscribe{Request: req, Subscription: 12345})
+		}
+		vQuiesce()
+	}
+	hadMeta := metaCalled > 0
+	if hadMeta && !vSymbolic() {
+		// (a native run cannot skip over minutes)
+		return
+	}
+	for ; metaCalled > 0; metaCalled-- {
+		// the stated exception: the callee of that call (the meta session) is
+		// held back for at most the result-retry period (retries with doubling
+		// delays: the last one ends 65.5 s after the first)
+		vAdvance(int64(70) * 1000000000)
+		vQuiesce()
+	}
+	vAssert("stalled-requester-buffers-at-most-its-queue", vQueued(s) <= q)
+	vAssert("no-worker-stuck-sending", vBlockedSends() == 0)
+	// it goes away, or keeps going
+	way := vChoice("then", 3)
+	switch way {
+	case 0:
+		s.peer.Close()
+	case 1:
+		s.send(&wamp.Goodbye{Reason: wamp.CloseRealm, Details: wamp.Dict{}})
+	case 2:
+		// still there: one more request is still processed (a sees its effect)
+		a.send(&wamp.Subscribe{Request: 5, Topic: "late.topic"})
+		a.drain()
+		s.send(&wamp.Publish{Request: 50, Topic: "late.topic"})
+		_, nev := vFindMsg[*wamp.Event](a.drain())
+		vAssert("later-request-of-the-stalled-session-is-processed", nev == 1)
+	}
+	if way < 2 {
+		vQuiesce() // the departure has been processed before a asks
+		// its departure was processed: the session is not counted and its procedure is free again
+		a.send(&wamp.Call{Request: 6, Procedure: wamp.MetaProcSessionCount})
+		res, nres := vFindMsg[*wamp.Result](a.drain())
+		vAssert("session-count-answered", nres == 1 && len(res.Arguments) == 1)
+		if nres == 1 && len(res.Arguments) == 1 {
+			cnt, _ := wamp.AsInt64(res.Arguments[0])
+			vAssert("departed-session-not-counted", cnt == 1)
+		}
+		a.send(&wamp.Register{Request: 7, Procedure: "s.proc"})
+		_, nreg := vFindMsg[*wamp.Registered](a.drain())
+		vAssert("departed-sessions-procedure-is-free", nreg == 1)
+		if !hadMeta {
+			vCover("stalled-requester-departed")
+		}
+	}
+	vBystanderServed(r, a)
+	if hadMeta {
+		vCover("stalled-requester-checked-after-the-retry-period(virtual-time)")
+	} else {
+		vCover("stalled-requester-checked")
+	}
+}
+
+// a peer whose Close takes as long as the harness says (a network peer
+// waiting for its writer to give up on a remote end that does not read)
+type vSlowClosePeer struct {
+	wamp.Peer
+	gate    chan struct{}
+	closing bool
+}
+
+func (p *vSlowClosePeer) IsLocal() bool { return false }
+func (p *vSlowClosePeer) Close() {
+	p.closing = true
+	<-p.gate
+	p.Peer.Close()
+}
+
+// A session whose transport is slow to close ends in any way: while its peer
+// is closing, everybody else is served - joins, requests, the meta API.
+func Harness_C07_SlowClosingPeer() {
+	r := vNewRouter(&Config{RealmConfigs: []*RealmConfig{{URI: "realm1", AnonymousAuth: true, EnableMetaKill: true}}})
+	a := vAttach(r, "realm1", nil, 64)
+	vAssert("attached", a != nil)
+	if a == nil {
+		return
+	}
+	c, rp := transport.LinkedPeersQSize(16)
+	slow := &vSlowClosePeer{Peer: rp, gate: make(chan struct{})}
+	go func() {
+		c.Send() <- &wamp.Hello{Realm: "realm1", Details: wamp.Dict{"roles": vAllRoles, "authid": "slow"}}
+	}()
+	err := r.AttachClient(slow, nil)
+	vAssert("slow-peer-attached", err == nil)
+	if err != nil {
+		return
+	}
+	w, ok := (<-c.Recv()).(*wamp.Welcome)
+	vAssert("welcome", ok)
+	if !ok {
+		return
+	}
+	s := &vClient{peer: c, id: w.ID}
+	s.send(&wamp.Register{Request: 1, Procedure: "s.proc"})
+	s.drain()
+	switch vChoice("way", 4) {
+	case 0:
+		s.send(&wamp.Goodbye{Reason: wamp.CloseRealm, Details: wamp.Dict{}})
+	case 1:
+		c.Close() // transport lost
+	case 2:
+		a.send(&wamp.Call{Request: 20, Procedure: wamp.MetaProcSessionKill, Arguments: wamp.List{s.id}})
+	case 3:
+		s.send(&wamp.Welcome{ID: 1, Details: wamp.Dict{}}) // protocol violation
+	}
+	vQuiesce()
+	a.drain()
+	vAssert("peer-is-being-closed", slow.closing)
+	// meanwhile: the meta API answers, requests are served, a client joins
+	a.send(&wamp.Call{Request: 30, Procedure: wamp.MetaProcSessionCount})
+	_, nres := vFindMsg[*wamp.Result](a.drain())
+	vAssert("meta-api-answers-while-a-peer-is-closing", nres == 1)
+	a.send(&wamp.Register{Request: 31, Procedure: "s.proc"})
+	_, nreg := vFindMsg[*wamp.Registered](a.drain())
+	vAssert("departed-sessions-procedure-is-free-while-its-peer-is-closing", nreg == 1)
+	joined := make(chan *vClient, 1)
+	go func() { joined <- vAttach(r, "realm1", nil, 16) }()
+	vQuiesce()
+	select {
+	case b := <-joined:
+		vAssert("join-accepted", b != nil)
+	default:
+		vAssert("a-client-can-join-while-a-peer-is-closing", false)
+	}
+	close(slow.gate)
+	vQuiesce()
+	r.Close()
+	vCover("slow-closing-peer-done")
 }
